@@ -9,6 +9,10 @@ Streams
   setitem_collection  Td.setitemColl vs td[idx] = dict / TensorDict (expand, batch reassignment, keys missing from the destination)
   oracle          torch on a proxy tensor of the batch shape + torch on every leaf (the property itself, on the real code);
                   extended domain (oracle only): numpy index arrays
+  subtd_read/write  Td.subInit/subGet/subNames/subSet vs td._get_sub_tensordict(idx) (c03_sub.py)
+  ext-tensorclass / ext-lazy  other containers, property oracle only (c03_containers.py)
+  history         two-step histories r = td[i1]; r[i2] = v / td[i1][i2], property oracle only (c03_hist.py)
+  pins            ast fingerprints of the 13 hand-transcribed functions (c03_pins.py)
   corpus/witness  minimised past failures and the fixed witnesses of the known defects, replayed on every run
 """
 from __future__ import annotations
@@ -41,6 +45,9 @@ def main():
         "numpy index arrays are exercised by the oracle only (extended domain), not modelled; nested python lists, lazy stacks and tensorclasses are not exercised here (C08 / C15)",
     ]
     run.build_and_audit(["TdVerif.Props.C03"])
+    # ast-shape obligations: every hand-transcribed function still has the source the model was transcribed from
+    import c03_pins
+    c03_pins.check(run)
     drv = run.driver()
 
     if run.replay:
@@ -53,6 +60,12 @@ def main():
     S.getitem(run, drv)
     S.setitem(run, drv)
     S.extended(run, drv)
+    import c03_sub
+    c03_sub.subtd(run, drv)
+    import c03_containers
+    c03_containers.containers(run, drv)
+    import c03_hist
+    c03_hist.histories(run, drv)
     S.witnesses(run, drv)
     if run.tier == "thorough":
         run.leanchecker(["TdVerif.Props.C03"])
